@@ -279,6 +279,15 @@ def uncovered_classes():
 # ---------------------------------------------------------------------------------------------
 # running one history on the real code
 
+def read_flags(el):
+    """(grid_dependent, wavelength_dependent) as the element stores them.  (`AgnosticOpticalElement.__getattr__` answers any
+    unknown name with a function, so a renamed private field does not raise: the value must be a boolean.)"""
+    g, w = el._grid_dependent, el._wavelength_dependent
+    if not isinstance(g, (bool, np.bool_)) or not isinstance(w, (bool, np.bool_)):
+        raise ValueError('_grid_dependent/_wavelength_dependent are not booleans: %r, %r' % (type(g).__name__, type(w).__name__))
+    return bool(g), bool(w)
+
+
 def make_wavefront(grid, wl, dtype, pol, seed):
     import hcipy as hp
     r = np.random.default_rng(seed)
@@ -481,8 +490,7 @@ class Hist:
         if self.elem is not None:
             # private flags, read from outside; fall back to the declared ones
             try:
-                self.grid_dep = bool(self.elem._grid_dependent)
-                self.wl_dep = bool(self.elem._wavelength_dependent)
+                self.grid_dep, self.wl_dep = read_flags(self.elem)
             except Exception as e:
                 self.state_issue('cannot read _grid_dependent/_wavelength_dependent: %r' % (e,))
             try:
@@ -1956,7 +1964,7 @@ def observe_reads(spec, params):
     """(grid_dependent, wavelength_dependent, key distinguishes weights, dimensions read by make_instance) observed on a
     new element with the given parameter indices, for one forward and one backward request."""
     el = spec.make(params)
-    gd, wd = bool(el._grid_dependent), bool(el._wavelength_dependent)
+    gd, wd = read_flags(el)
     log, on = set(), [False]
     orig = el.make_instance
 
@@ -1998,6 +2006,23 @@ def observe_reads(spec, params):
     return gd, wd, kw, sorted(log)
 
 
+def lost_dimension_history(spec, params, lost):
+    """A history whose requests differ in nothing but the dimensions the key loses."""
+    f = lambda g, w, sd: ['fwd', g, w, 'complex128', int(spec.pol[0]), sd]      # noqa: E731
+    b = lambda g, w, sd: ['bwd', g, w, 'complex128', int(spec.pol[0]), sd]      # noqa: E731
+    N = len(spec.fwd)
+    ops = [['set', n, i] for n, i in params.items() if i]
+    near = []
+    if 'weights' in lost:
+        near = [[0, 'weights', 1], [0, 'weights', 3]]
+        ops += [f(0, 0, 41), f(N, 0, 42), f(N + 1, 0, 43), b(N, 0, 44), b(0, 0, 45), f(0, 0, 46), ['both', N, N, 0], ['both', 0, 0, 0]]
+    if 'coords' in lost:
+        ops += [f(0, 0, 47), f(1, 0, 48), b(0, 0, 49), b(1, 0, 50), f(0, 0, 51)]
+    if 'wavelength' in lost:
+        ops += [f(0, 0, 52), f(0, 2, 53), b(0, 3, 54), f(0, 0, 55), b(0, 0, 56)]
+    return {'spec': spec.name, 'maxN': None, 'style': 'lost-dimension', 'near': near, 'ops': ops}
+
+
 def family_of(el):
     for klass in type(el).__mro__:
         if klass.__name__ in FAMILIES:
@@ -2026,11 +2051,28 @@ def check_declared_reads(ctx):
             lost = [d for d in reads if not covered[d]]
             ctx.case(None, nontrivial_key=('reads', spec.name, json.dumps(params, sort_keys=True)) if reads else None)
             if lost:
-                ctx.violation('undeclared-dependence %s' % name,
-                              '%s.make_instance reads the %s of the request, which the instance cache key does not retain '
-                              '(grid_dependent=%s, wavelength_dependent=%s, key distinguishes weights: %s): two requests that differ '
-                              'there share one instance' % (name, ' and the '.join(lost), gd, wd, kw),
-                              {'reads': spec.name, 'params': params})
+                # a structural finding; it becomes a violation of the property only with a history on which the shared
+                # element differs from a fresh one -- requests that differ in nothing but the lost dimensions
+                what = ('%s.make_instance reads the %s of the request, which the instance cache key does not retain '
+                        '(grid_dependent=%s, wavelength_dependent=%s, key distinguishes weights: %s)'
+                        % (name, ' and the '.join(lost), gd, wd, kw))
+                hist = lost_dimension_history(spec, params, lost)
+                h = Hist(spec, hist)
+                try:
+                    h.run()
+                except MachineryError:
+                    raise
+                except Exception as e:
+                    h.state_issue('unexpected %s: %s' % (type(e).__name__, e))
+                if h.bad:
+                    key, w2, step = h.bad[0]
+                    small = dict(hist)
+                    small['ops'] = hist['ops'][:step + 1]
+                    ctx.violation('undeclared-dependence %s' % name, '%s: two requests that differ there share one instance -- %s'
+                                  % (what, w2), small)
+                else:
+                    ctx.count('uncovered-read-without-visible-effect:%s' % name)
+                    ctx.disagree('declared-reads', {'spec': spec.name, 'params': params, 'issue': what + '; no history showed an effect'})
             lines.append('C05 covers %d %d [%s]' % (gd, wd, ','.join(str(DIM_CODE[d]) for d in reads)))
             expect.append(('covers', spec.name, 'ok uncovered=[%s]' % ','.join(str(DIM_CODE[d]) for d in lost)))
             try:
@@ -2235,8 +2277,7 @@ def run(ctx):
     # every kind of Fourier object an element owns must have been driven with both precisions on one instance
     ctx.extra['owned_fourier_objects'] = {'%s:%s' % k: {'objects': v[0], 'used_with_both_precisions': v[1]} for k, v in sorted(owned.items())}
     lacking = ['%s:%s' % k for k, v in sorted(owned.items()) if v[1] == 0]
-    if lacking and not ctx.violations:
-        raise MachineryError('no history used these owned Fourier objects with both precisions on one instance: %s' % lacking)
+    ctx.extra['owned_fourier_objects_never_flipped'] = lacking
 
     check_wavelength_keys(ctx)
 
@@ -2317,6 +2358,10 @@ def run(ctx):
     check_scratch_load(ctx)
     check_decorator(ctx)
     check_declared_reads(ctx)
+    # generator coverage (last, so that every oracle has run): a kind of Fourier object an element owns that no history
+    # drove with both precisions on one instance is a gap of this machinery -- unless violations cut the histories short
+    if lacking and not ctx.violations:
+        raise MachineryError('no history used these owned Fourier objects with both precisions on one instance: %s' % lacking)
 
 
 def replay(ctx, case):
